@@ -294,7 +294,7 @@ def run_check(prop, tier, verif_seed, nruns=None, nworkers=None, write_evidence=
         return 2
     # ---------------- violations -> replay files, verified in a fresh interpreter
     known = load_known()
-    reported, known_hits, seen = [], {}, set()
+    reported, known_hits, seen, unstable = [], {}, set(), []
     os.makedirs(os.path.join(ROOT, "replays"), exist_ok=True)
     for v in tot["violations"]:
         sig = signature(v)
@@ -311,9 +311,16 @@ def run_check(prop, tier, verif_seed, nruns=None, nworkers=None, write_evidence=
         core.write_replay(path, prop, r, v["seed"], verif_seed, tier)
         ok, info = verify_replay(path)
         if not ok:
-            print("HARNESS-ERROR property=%s replay %s does not reproduce in a fresh interpreter: %s" % (prop, path, info))
-            return 2
+            # a violation that does not replay exactly is not reported as a verdict; if nothing else reproduces the
+            # run ends as a harness error below
+            unstable.append((path, info))
+            continue
         reported.append((path, r, sig))
+    for path, info in unstable[:3]:
+        print("  note: replay %s did not reproduce exactly in a fresh interpreter (%s)" % (path, str(info)[:200]))
+    if unstable and not reported:
+        print("HARNESS-ERROR property=%s %d violation(s) were observed but none replays exactly in a fresh interpreter" % (prop, len(unstable)))
+        return 2
     for kid, (k, cnt) in sorted(known_hits.items()):
         print("KNOWN-FINDING: property=%s %s (%s; seen %d times in this run)" % (prop, k.get("what", kid), kid, cnt))
     for path, r, sig in reported:
